@@ -103,6 +103,14 @@ class Sel:
     def __init__(self, what):
         self.what = what
 
+    def skv_getattr(self, name):
+        if name == "dtype":
+            class IntDtype:          # an index array, not a Boolean mask
+                def skv_compare(self, op, other):
+                    return isinstance(op, ast.NotEq)
+            return IntDtype()
+        raise Unsupported(f"attribute {name} of a selection")
+
     def __repr__(self):
         return f"<{self.what}>"
 
@@ -648,7 +656,8 @@ def _dispatch(model, rep):
                         ("normalize_elements", "subdomains")):
         f = mcls.methods[meth]
         arr = Sel("array")
-        obj = Obj(mcls, {table: {"tag": "TAGGED"}})
+        tagged = Sel("the tagged index array")
+        obj = Obj(mcls, {table: {"tag": tagged}})
         try:
             r1 = Interp(model, call_hook=_hook).call(f, [arr], {},
                                                      self_obj=obj)
@@ -662,7 +671,7 @@ def _dispatch(model, rep):
                 r3 = "raised"
         except (Unsupported, Raised) as e:
             raise AnalysisError(f"{meth}: {e}")
-        _v(rep, R4, r1 is arr and r2 == "TAGGED" and r3 == "raised",
+        _v(rep, R4, r1 is arr and r2 is tagged and r3 == "raised",
            f"{meth}[array/name]",
            f"index arrays pass through, a name returns self.{table}[name], "
            f"an unknown name raises", f"Mesh.{meth}",
@@ -1028,6 +1037,29 @@ def _index_forms(model, rep):
         else:
             rep.ok(R4, cons, "a single index is accepted as Python and as "
                    "NumPy integer")
+        # a Boolean array with one entry per entity is the most common way
+        # of naming a subset in NumPy (midpoints[0] < .5); passed through as
+        # an 'index array' its values 0 / 1 are read as entity numbers
+        # (remove_elements(mask) removes cells 0 and 1)
+        masks = any(
+            isinstance(n, ast.Compare) and isinstance(n.left, ast.Attribute)
+            and n.left.attr == "dtype" and src(n.left.value) == par
+            and src(n.comparators[0]) in ("bool", "np.bool_")
+            for n in walk_no_nested(fn.node)) and any(
+            isinstance(n, ast.Call) and src(n.func) in (
+                "np.nonzero", "np.flatnonzero", "np.where")
+            for n in walk_no_nested(fn.node))
+        cons = f"Mesh.{name}:boolean-mask"
+        if masks:
+            rep.ok(R4, cons, "a Boolean array is converted to the indices "
+                   "of its true entries")
+        else:
+            rep.fail(R4, fn.path, f"Mesh.{name}", cons,
+                     f"an ndarray is returned as given whatever its dtype: "
+                     f"a Boolean mask (midpoints[0] < .5) is then used as "
+                     f"an array of the indices 0 and 1 - "
+                     f"remove_elements(mask) removes exactly cells 0 and 1, "
+                     f"silently", fn.lineno)
         cats = [c for c in walk_no_nested(fn.node) if isinstance(c, ast.Call)
                 and src(c.func) in ("np.concatenate", "np.hstack")
                 and c.args]
@@ -1146,6 +1178,10 @@ _D = "skfem/assembly/dofs.py"
 _AB = "skfem/assembly/basis/abstract_basis.py"
 _M = "skfem/mesh/mesh.py"
 MUTANTS = [
+    ("element selector passes Boolean masks through",
+     (_M, "            if elements.dtype == bool:\n                # a mask of "
+      "the elements\n                return np.nonzero(elements)[0].astype("
+      "np.int32)\n", ""), "C07-R4"),
     ("facet midpoints as the plain mean of the table rows",
      (_M, "        midp = self._facet_midpoints()",
       "        midp = self.p[:, self.facets].mean(axis=1)"), "C07-R4"),
